@@ -602,10 +602,48 @@ def rule_p8(repo):
                 'cut short on re-reading - `if b then A else B | C` comes back as `(if b then A else B) | C`' % (narrow[0], cname, fmt), '%s:1' % PARSER)
     return res
 
+def rule_p9(repo):
+    """The text of a verification condition is written once, from the condition (`str(vc)`), next to its HOL form.  The
+    listing of a program also edits lines after the fact (the `;` between two commands is appended to the line in front).
+    Such an edit must pick a *command* line: a condition whose text is changed afterwards no longer says what its HOL
+    form says, and with a `;` at its end it cannot be read back at all.  Every later store into the text of a line is
+    behind a test that the line is a command line."""
+    res = RuleResult('C20.P9', 'the text of a listed verification condition is never edited after it was written', floor=1)
+    f = repo.func(COM, 'Com.get_lines')
+    n_edits = 0
+    for g in [f] + list(f.nested.values()):
+        cfg = cfg_of(g.node)
+        for n in cfg.nodes:
+            if n.kind != 'stmt' or not isinstance(n.ast, (ast.AugAssign, ast.Assign)):
+                continue
+            tgts = [n.ast.target] if isinstance(n.ast, ast.AugAssign) else n.ast.targets
+            for t in tgts:
+                if not (isinstance(t, ast.Subscript) and isinstance(t.slice, ast.Constant) and t.slice.value == 'str'):
+                    continue
+                n_edits += 1
+                line = src(t.value)
+
+                def is_com(e, pol, line=line):
+                    cp = compare_parts(e)
+                    if not cp:
+                        return False
+                    txt = (src(cp[1]), src(cp[2]))
+                    about = any(x in (line + "['ty']", line + '["ty"]') for x in txt)
+                    return about and ((cp[0] is ast.Eq and pol and ("'com'" in txt or '"com"' in txt)) or
+                                      (cp[0] is ast.NotEq and not pol and ("'com'" in txt or '"com"' in txt)))
+                edges = cfg.establishing_edges(is_com)
+                ok = bool(edges) and cfg.path_avoiding(n, skip_edges=edges) is None
+                res.add('%s :: %s :: edit(%s[str])' % (COM, g.qualname, line), ok,
+                        'only a line of type com is edited' if ok else
+                        'line %d changes the text of `%s` whatever kind of line it is: after a loop that is the condition for leaving the loop, which is then shown '
+                        'as `.. --> a == 0;` and cannot be read back' % (n.lineno, line), '%s:%d' % (COM, n.lineno))
+    need(n_edits, 'Com.get_lines: no later edit of a listed line found (the separator of a sequence)')
+    return res
+
 
 def rules(repo):
     p1 = rule_p1(repo)
     if any(not i.ok for i in p1.instances):
         # with an ambiguous grammar there is no nesting for the printer's brackets to agree with
-        return [p1, rule_p3(repo), rule_p4(repo), rule_p5(repo), rule_p6(repo), rule_p7(repo), rule_p8(repo)]
-    return [p1, rule_p2(repo), rule_p3(repo), rule_p4(repo), rule_p5(repo), rule_p6(repo), rule_p7(repo), rule_p8(repo)]
+        return [p1, rule_p3(repo), rule_p4(repo), rule_p5(repo), rule_p6(repo), rule_p7(repo), rule_p8(repo), rule_p9(repo)]
+    return [p1, rule_p2(repo), rule_p3(repo), rule_p4(repo), rule_p5(repo), rule_p6(repo), rule_p7(repo), rule_p8(repo), rule_p9(repo)]
